@@ -380,6 +380,70 @@ def check_c05(tier: str) -> int:
                                  {"kind": "correspondence", "layout": name, "record": r.hex(), "disagreement": mis,
                                   "correspondence": f"coq/at{gen}/Codec{gen}.v (decode) vs pyairtouch.at{gen}.comms"},
                                  found_input=False)
+    # several records in one message (AT4 layouts and the ability messages have no stride field: records follow
+    # one another, ability records of both lengths may be mixed): every record must read as it does alone
+    FAMILIES = {"at4_group_status": ["at4_group_status"], "at4_ac_status": ["at4_ac_status"],
+                "at4_ability": ["at4_ability_old", "at4_ability_new"], "at5_ability": ["at5_ability"],
+                "at4_group_name": ["at4_group_name"]}
+    for fam, names in FAMILIES.items():
+        gen, mtype, _, build, _ = LAYOUTS[names[0]]
+        pool = []
+        for nm in names:
+            sz = LAYOUTS[nm][2]
+            cands = [(b + bytes(sz))[:sz] for b in BACKGROUNDS[nm]]
+            for _ in range(60):
+                r = bytearray(rng.choice(cands))
+                for _k in range(rng.choice([1, 2, 4])):
+                    j = rng.randrange(sz)
+                    if nm.startswith(("at4_ability", "at5_ability")) and j == 1:
+                        continue                       # the record's own length byte
+                    r[j] = rng.randrange(256)
+                cands.append(bytes(r))
+            if nm == "at4_group_name":
+                cands += [bytes([g]) + rng.choice(["Living", "Bed 2", "Küche", "", "ABCDEFGH", "x"]).encode()[:8].ljust(8, b"\0")
+                          for g in range(16)]
+            pool += [(nm, r) for r in cands if impl_record(nm, r)[0] == "ok"]
+        multis = []
+        dist[f"multi_{fam}_pool"] = len(pool)
+        for _ in range((150 if tier == "quick" else 3000) if pool else 0):
+            pick = [rng.choice(pool) for _k in range(rng.choice([2, 2, 3, 4]))]
+            if fam == "at4_group_name" and len({r[0] for _, r in pick}) != len(pick):
+                continue
+            multis.append(pick)
+        flat = [(nm, r) for pick in multis for nm, r in pick]
+        if not flat:
+            continue
+        specs = iter(common.run_model([[SPEC, LAYOUTS[nm][4]] + list(r) for nm, r in flat]))
+        c = codec_tie.codec(gen)
+        for pick in multis:
+            ck.count()
+            dist[f"multi_{fam}_{len(pick)}"] += 1
+            payload = build(b"".join(r for _, r in pick))
+            d = c.impl_decode(mtype, payload)
+            sps = [next(specs) for _ in pick]
+            replay = {"kind": "multi-record", "family": fam, "payload": payload.hex(), "message_type": mtype,
+                      "records": [[nm, r.hex()] for nm, r in pick]}
+            if d[0] != "ok":
+                ck.violation("a message of individually readable records is rejected",
+                             dict(replay, trigger={"class": f"multi:{fam}:rejected"}, failure=str(d[1])))
+                continue
+            sub = getattr(d[1], "sub_message", d[1])
+            if hasattr(sub, "group_names"):
+                seq = list(sub.group_names.items())
+            else:
+                seq = [getattr(sub, a) for a in ("groups", "ac_status", "zones", "ac_abilities") if hasattr(sub, a)][0]
+            if len(seq) != len(pick):
+                ck.violation("record count differs from the records present",
+                             dict(replay, trigger={"class": f"multi:{fam}:count"}, failure=f"{len(seq)} decoded, {len(pick)} present"))
+                continue
+            for i, ((nm, r), sp, o) in enumerate(zip(pick, sps, seq)):
+                for cls, desc in compare(nm, r, ("ok", o), sp):
+                    if cls in KNOWN_CLASSES:
+                        continue
+                    reported[("multi", fam)] += 1
+                    if reported[("multi", fam)] <= 2:
+                        ck.violation("a record reads differently inside a multi-record message than the document says",
+                                     dict(replay, trigger={"class": "multi:" + cls}, record_index=i, failure=desc))
     # strides
     c5 = codec_tie.codec(5)
     scases = list(stride_cases(rng, 600 if tier == "quick" else 20000))
